@@ -109,6 +109,8 @@ class World:
         self.states = set()
         self.nested_calib = False
         self.reentered = set()
+        self.no_observers = os.environ.get("QSIM_NO_OBSERVERS") == "1"
+        self.arm_silent = os.environ.get("QSIM_ARM_SILENT") == "1"
         self.cur_calib = None
 
     # ---------------------------------------------------------------- reporting helpers
@@ -174,6 +176,7 @@ class World:
                 self.cleanup()
         res = self.res
         res["log_digest"] = self.log.digest()
+        res["behaviour_digest"] = self.log.behaviour_digest()
         res["trace"] = self.trace[:200]
         res["trace_hash"] = hexdigest(self.trace)
         res["states"] = sorted(self.states)
